@@ -188,6 +188,13 @@ func c09Sweep(c *ctx, u *universe, b *tkBudget, quick bool) {
 							cs.CallType = ct
 							sr := r.call(cs)
 							c.count(fmt.Sprintf("c09/sweep/%s/same-shard/%s", c09OracleName(oracle), statusName(sr.Res.Status)))
+							if extra == 0 { // the same flagged return-after-error: the flag lifts the freeze/pause gate, NOT the payability check
+								r2 := base.fork(base.tag + "/same-shard-rae/" + tag)
+								cs2 := r2.w.mkCall(0, fn, A, rcpt, cloneArgs(args), bigGas)
+								cs2.CallType, cs2.RAE = ct, true
+								sr2 := r2.call(cs2)
+								c.count(fmt.Sprintf("c09/sweep/%s/same-shard-rae/%s", c09OracleName(oracle), statusName(sr2.Res.Status)))
+							}
 						}
 						// (b) sender side towards the other shard, then delivery of the real message (and refund when refused)
 						{
@@ -216,6 +223,13 @@ func c09Sweep(c *ctx, u *universe, b *tkBudget, quick bool) {
 							fn, args := destArgs(kind, extra)
 							cs := &callSpec{Shard: 1, Fn: fn, Caller: caller, Rcpt: other, Args: args, Value: big.NewInt(0), Gas: bigGas, CallType: ct, Snd: false, Dst: true, FailAt: -1}
 							sr := r.call(cs)
+							if extra == 0 {
+								r2 := base.fork(base.tag + "/crafted-rae/" + tag)
+								cs2 := *cs
+								cs2.Args, cs2.RAE = cloneArgs(args), true
+								sr2 := r2.call(&cs2)
+								c.count(fmt.Sprintf("c09/sweep/%s/crafted-rae/%s", c09OracleName(oracle), statusName(sr2.Res.Status)))
+							}
 							who := "user"
 							if bytes.Equal(caller, u.SC) {
 								who = "system-contract"
